@@ -31,4 +31,6 @@ for k, v in defs.items():
 out.append('end Yaclib.Skeletons\n')
 C.write_if_changed(os.path.join(C.LEAN, 'YaclibModel/Model/Skeletons.lean'), '\n'.join(out))
 C.write_if_changed(os.path.join(C.LEAN, 'YaclibModel/Extracted/Kernels.lean'), text)
+from vlib import x_anchors  # noqa: E402
+x_anchors.write_golden(C.REPO)
 print('ok', len(defs))
